@@ -81,8 +81,15 @@ class HarnessError(Exception):
     """The check itself is broken (oracle self-check failed, build failed ...)."""
 
 
+_ABORT = None  # multiprocessing.Value shared with the workers: stop early once plenty of violations are known
+
+
 def _run_task(task):
     jname, func, params, lo, hi = task
+    if _ABORT is not None and _ABORT.value:
+        r = new_result()
+        r["capped"] = True
+        return jname, lo, hi, r, None
     try:
         r = func(params, lo, hi)
         return jname, lo, hi, r, None
@@ -164,11 +171,15 @@ def run_check(pid: str, tier: str, seed: int, procs: int, only: str | None = Non
     agg = {j.name: new_result() for j in jobs}
     done = {j.name: 0 for j in jobs}
     harness_errors = []
+    global _ABORT
+    ctx = mp.get_context("fork")
+    _ABORT = ctx.Value("i", 0)
+    n_viol = 0
+    n_hang = 0
     if procs <= 1 or len(tasks) <= 1:
         it = map(_run_task, tasks)
         pool = None
     else:
-        ctx = mp.get_context("fork")
         pool = ctx.Pool(procs, initializer=_init_worker)
         it = pool.imap_unordered(_run_task, tasks, chunksize=1)
     try:
@@ -186,6 +197,10 @@ def run_check(pid: str, tier: str, seed: int, procs: int, only: str | None = Non
                 a["samples"].extend(r["samples"][: 2 - len(a["samples"])])
             a["capped"] = a["capped"] or r["capped"]
             done[jname] += hi - lo
+            n_viol += len(r["violations"])
+            n_hang += r["counters"].get("hangs", 0)
+            if n_viol >= 200 or n_hang >= 12:
+                _ABORT.value = 1  # remaining chunks return at once, marked capped
     finally:
         if pool is not None:
             pool.terminate()
@@ -277,8 +292,12 @@ def run_check(pid: str, tier: str, seed: int, procs: int, only: str | None = Non
         "wall_s": round(wall, 2),
         "violations": len(fresh),
     }
-    os.makedirs(os.path.join(VERIF, "evidence"), exist_ok=True)
-    evpath = os.path.join(VERIF, "evidence", pid + ".json")
+    evdir = os.path.join(VERIF, "evidence")
+    if REPO != "/repo" or only:
+        # debugging runs (scratch tree, or a subset of the spaces) never overwrite the real evidence
+        evdir = os.environ.get("VERIF_SCRATCH_EVIDENCE", "/var/tmp/solvor-verif/scratch-evidence")
+    os.makedirs(evdir, exist_ok=True)
+    evpath = os.path.join(evdir, pid + ".json")
     with open(evpath + ".tmp", "w") as f:
         json.dump(ev, f, indent=1, sort_keys=True, default=repr)
     os.replace(evpath + ".tmp", evpath)
@@ -334,3 +353,26 @@ def main(argv=None) -> int:
 
 if __name__ == "__main__":
     sys.exit(main())
+
+
+def viol(function, kind, witness, detail, predicates=None):
+    return {"function": function, "kind": kind, "witness": witness, "detail": detail, "predicates": predicates or []}
+
+
+def indexed_chunk(fn, params, lo, hi, max_viol=40):
+    """Common body of an E1 chunk function: fn(params, idx, r) executes case idx and updates r."""
+    r = new_result()
+    for idx in range(lo, hi):
+        fn(params, idx, r)
+        if len(r["violations"]) >= max_viol or r["counters"].get("hangs", 0) >= 2:
+            r["capped"] = True
+            break
+    return r
+
+
+def mixed_radix(idx, radices):
+    out = []
+    for b in radices:
+        out.append(idx % b)
+        idx //= b
+    return out
